@@ -1,10 +1,17 @@
 import Holpy.Common.Sexp
 import Holpy.C18.Model
+import Holpy.C18.ModelLA
 /-
 Line protocol of the C18 model (one s-expression in, one out):
   (eval RULE (TERM ...) (NAT ...) ((HYPS PROP) ...))  ->  (ok (TERM ...) TERM WK) | (reject ERR) | bad-op
   (rules)                                            ->  (NAME ...)        the rules the model knows
+  (proof (CMD ...))                                  ->  (ok (TERM ...) TERM WK) | (reject ERR)   last sequent of
+                                                         `validate(is_eval=True)`; WK = the run with the wellKinded test agrees
+  (la Z|Q (LIT ...) (NUM ...))                       ->  T | F             la_generic / la_tautology accepts?
 TERM = (v n) | (k c) | (c TERM TERM);  HYPS = (TERM ...);  WK = T | F (`wellKinded`)
+CMD = (assume TERM) | (step RULE (TERM ...) (NAT ...) (NAT ...))     premises = positions of earlier commands
+LIT = (T|F REL LTM LTM) with REL in lt le eq gt ge other;  NUM = (numerator denominator)
+LTM = (n NUM) | (a k) | (+ LTM LTM) | (- LTM LTM) | (~ LTM) | (* NUM LTM) | (bad LTM)
 -/
 open Holpy Holpy.C18
 
@@ -35,6 +42,54 @@ def errTo : Err → String
   | .unpack => "unpack"
   | .index => "index"
 
+open Holpy.C18.LA in
+def numQ : Sexp → Option Rat
+  | .list [n, d] => do
+    let a ← n.toInt?
+    let b ← d.toNat?
+    if b = 0 then none else some (mkRat a b)
+  | _ => none
+
+open Holpy.C18.LA in
+def numZ : Sexp → Option Int
+  | .list [n, d] => do
+    let a ← n.toInt?
+    let b ← d.toNat?
+    if b = 1 then some a else none
+  | _ => none
+
+open Holpy.C18.LA in
+partial def ltmOf {α : Type} (num : Sexp → Option α) : Sexp → Option (LA.LTm α)
+  | .list [.atom "n", q] => do some (.num (← num q))
+  | .list [.atom "a", k] => do some (.atom (← k.toNat?))
+  | .list [.atom "+", a, b] => do some (.add (← ltmOf num a) (← ltmOf num b))
+  | .list [.atom "-", a, b] => do some (.sub (← ltmOf num a) (← ltmOf num b))
+  | .list [.atom "~", a] => do some (.neg (← ltmOf num a))
+  | .list [.atom "*", c, a] => do some (.mul (← num c) (← ltmOf num a))
+  | .list [.atom "bad", a] => do some (.badMul (← ltmOf num a))
+  | _ => none
+
+open Holpy.C18.LA in
+def relOf : Sexp → Option Rel
+  | .atom "lt" => some .lt
+  | .atom "le" => some .le
+  | .atom "eq" => some .eq
+  | .atom "gt" => some .gt
+  | .atom "ge" => some .ge
+  | .atom "other" => some .other
+  | _ => none
+
+open Holpy.C18.LA in
+def litOf {α : Type} (num : Sexp → Option α) : Sexp → Option (LA.Lit α)
+  | .list [n, r, a, b] => do some ⟨← n.toBool?, ← relOf r, ← ltmOf num a, ← ltmOf num b⟩
+  | _ => none
+
+def cmdOf : Sexp → Option Cmd
+  | .list [.atom "assume", t] => do some (.assume (← tmOf t))
+  | .list [.atom "step", .atom r, cl, sizes, prems] => do
+    some (.step (← Rule.ofName r) (← tmsOf cl) (← natsOf sizes) (← natsOf prems))
+  | _ => none
+
 def handle (line : String) : String :=
   match Sexp.parse line with
   | some (.list [.atom "eval", .atom r, cl, sizes, ps]) =>
@@ -44,6 +99,28 @@ def handle (line : String) : String :=
       | .ok s => toString (Sexp.list [.atom "ok", .list (s.hyps.map tmTo), tmTo s.prop, Sexp.ofBool (wellKinded rule c p)])
       | .error e => toString (Sexp.list [.atom "reject", .atom (errTo e)])
     | _, _, _, _ => "bad-op"
+  | some (.list [.atom "proof", cmds]) =>
+    match (do (← cmds.toList?).mapM cmdOf) with
+    | some cs =>
+      match runProofRaw cs [] with
+      | .ok res =>
+        match res.getLast? with
+        | some s =>
+          let wk := match runProof cs [] with
+            | .ok res' => res'.getLast? == some s
+            | .error _ => false
+          toString (Sexp.list [.atom "ok", .list (s.hyps.map tmTo), tmTo s.prop, Sexp.ofBool wk])
+        | none => "(reject empty)"
+      | .error e => toString (Sexp.list [.atom "reject", .atom (errTo e)])
+    | none => "bad-op"
+  | some (.list [.atom "la", .atom "Q", lits, cs]) =>
+    match (do (← lits.toList?).mapM (litOf numQ)), (do (← cs.toList?).mapM numQ) with
+    | some ls, some c => toString (Sexp.ofBool (LA.laGenericQ ls c))
+    | _, _ => "bad-op"
+  | some (.list [.atom "la", .atom "Z", lits, cs]) =>
+    match (do (← lits.toList?).mapM (litOf numZ)), (do (← cs.toList?).mapM numZ) with
+    | some ls, some c => toString (Sexp.ofBool (LA.laGenericZ ls c))
+    | _, _ => "bad-op"
   | some (.list [.atom "rules"]) => toString (Sexp.list (Rule.all.map fun r => .atom r.name))
   | _ => "bad-op"
 
